@@ -1047,10 +1047,31 @@ fn derive_dot_expression(
             }
         }
 
-        // Grouped expression - unwrap and recurse
+        // Grouped expression - a computed selector. The VM evaluates the
+        // expression and uses its value as the index or field name.
         (_, Expression::Grouped(expr, _)) => {
-            derive_dot_expression(pos, left_shape, expr.as_ref(), symbol_table)
+            let selector_shape = expr.derive_shape(symbol_table);
+            match (left_shape, &selector_shape) {
+                (_, Shape::TypeErr(_, _)) => selector_shape,
+                (Shape::List(lshape), Shape::Int(_)) => Shape::Narrowed(lshape.clone()),
+                // We can not know statically which field or element a
+                // computed selector picks.
+                _ => Shape::Narrowed(NarrowedShape {
+                    pos: pos.clone(),
+                    types: NarrowingShape::Any,
+                }),
+            }
         }
+
+        // A call or a copy through a selector: `t.f(1)`, `t.inner{x = 1}`.
+        // Their result is not tracked through the selector.
+        (Shape::TypeErr(_, _), Expression::Call(_)) | (Shape::TypeErr(_, _), Expression::Copy(_)) => {
+            left_shape.clone()
+        }
+        (_, Expression::Call(_)) | (_, Expression::Copy(_)) => Shape::Narrowed(NarrowedShape {
+            pos: pos.clone(),
+            types: NarrowingShape::Any,
+        }),
 
         // Resolved import - treat as a tuple of exported bindings
         (Shape::Import(ImportShape::Resolved(_, tuple_fields)), _) => {
